@@ -442,3 +442,46 @@ func diffFields(p, q interface{}) []string {
 	}
 	return out
 }
+
+// opSpec: C02.  Prints Marshal's frame; the Lean side prints the frame its independent SMPP v5
+// table prescribes, so a differing line is a deviation from the specification.  The converse
+// (ReadPDU of that frame returns the values laid out) is evaluated here.
+func opSpec(args []string) string {
+	p, err := parsePDU(args)
+	if err != nil {
+		return "bad-op"
+	}
+	orig := toks(p)
+	frame, cls, _, _ := doMarshal(p)
+	switch cls {
+	case "nil":
+	case "st51", "itemtoomany", "datatoolarge", "smtoolarge", "st194", "invalidseq":
+		return "not-carried"
+	default:
+		return "err " + cls
+	}
+	if len(frame) > 65536 {
+		return "not-carried"
+	}
+	s := "ok " + canon.Hex(frame)
+	q, rerr := pdu.ReadPDU(bytes.NewReader(frame))
+	if rerr != nil {
+		return s + " !! C02:spec-frame-not-decoded:" + errClass(rerr)
+	}
+	// compare with the values that were laid out (header length/id are derived data)
+	po, _ := parsePDU(append([]string{args[0]}, strings.Fields(orig)...))
+	copyHeader(po, q)
+	if d := diffFields(po, q); len(d) > 0 && !onlyPrepared(po, p) {
+		return s + " !! C02:decoded-differs fields=" + strings.Join(d, ",")
+	}
+	return s
+}
+
+func copyHeader(dst, src interface{}) {
+	d := reflect.ValueOf(dst).Elem().Field(0).Addr().Interface().(*pdu.Header)
+	h := reflect.ValueOf(src).Elem().Field(0).Addr().Interface().(*pdu.Header)
+	d.CommandLength, d.CommandID = h.CommandLength, h.CommandID
+}
+
+// onlyPrepared: did Marshal's Prepare change the value (replace_sm data_coding marker)?
+func onlyPrepared(orig, after interface{}) bool { return toks(orig) != toks(after) }
